@@ -235,7 +235,7 @@ func opSyncExp() error {
 		if err := st.Open(); err != nil {
 			return err
 		}
-		ln, err := net.Listen("tcp", "127.0.0.1:0")
+		ln, err := PatientListen("tcp", "127.0.0.1:0")
 		if err != nil {
 			return err
 		}
@@ -333,7 +333,7 @@ func opSyncExp() error {
 				eng = nil
 				acc := make(chan net.Conn, 1)
 				go func() { c, _ := ln.Accept(); acc <- c }()
-				c, err := net.Dial("tcp", ln.Addr().String())
+				c, err := PatientDial(&net.Dialer{}, "tcp", ln.Addr().String())
 				if err != nil {
 					return err
 				}
